@@ -1,6 +1,6 @@
 import Std.Data.HashMap
 import PdshVerif.Base.Hex
-import PdshVerif.Opt.Exclude
+import PdshVerif.Opt.ExcludeFast
 import PdshVerif.Opt.ExcludeSpec
 import PdshVerif.Hostlist.Probed
 import Driver.Util
@@ -82,7 +82,8 @@ def stepModel (a : Acc) (line : String) : Acc × String :=
     else
       let cfg : Cfg := { Cfg.probed with fixPushLoop := a.d2, fix2Br := a.br2 }
       let env : Exclude.Env := { files := a.files, rematch := lookupTab a, badre := fun p => a.bad.contains p }
-      ({}, resString (Exclude.cliFinalW cfg env a.wenv a.evs.reverse))
+      -- `cliFinalWF` = `cliFinalW` (Opt/ExcludeFast.lean `cliFinalWF_eq`), linear in the size of the files
+      ({}, resString (Exclude.cliFinalWF cfg env a.wenv a.evs.reverse))
   | ["cfg"] => (a, Cfg.probed.describe)
   | ws =>
     match absorb a ws with
